@@ -15,6 +15,7 @@ import (
 	"sort"
 	"strconv"
 	"sync"
+	"sync/atomic"
 	"syscall"
 
 	"github.com/bluenviron/gortsplib/v5/pkg/zverif/vtime"
@@ -27,6 +28,11 @@ type Net struct {
 	pconns    map[int]*PacketConn
 	conns     map[*Conn]bool
 	nextPort  int
+	// Fault, when set, is asked before listen, listen-packet, dial, tcp-read, tcp-write and udp-write; a non-nil
+	// answer is what the operation returns instead of being performed (the environment's other answer). A
+	// faulted tcp-read / tcp-write resets the connection: every later operation on it fails the same way, the
+	// peer reads EOF and its writes fail; the connection stays open (and listed) until its owner closes it.
+	Fault func(op, tag string, local, remote net.Addr) error
 	// OnAccept, when set, is called by Listener.Accept with the connection it is about to return (it may block:
 	// the harness decides what happens between "accepted by the kernel" and "seen by the caller").
 	OnAccept func(c net.Conn)
@@ -183,6 +189,7 @@ type Conn struct {
 	cmu           sync.Mutex
 	tag           string
 	peer          *Conn
+	resetErr      atomic.Pointer[net.OpError]
 	// Stall makes reads block as if the peer had sent nothing more.
 }
 
@@ -197,10 +204,16 @@ func (c *Conn) wake() {
 
 // Read implements net.Conn.
 func (c *Conn) Read(b []byte) (int, error) {
+	if err := c.fault("read"); err != nil {
+		return 0, err
+	}
 	p := c.in
 	p.mu.Lock()
 	defer p.mu.Unlock()
 	for {
+		if e := c.resetErr.Load(); e != nil && !c.isClosed() {
+			return 0, &net.OpError{Op: "read", Net: "mem", Err: e.Err}
+		}
 		if p.rclose {
 			return 0, &net.OpError{Op: "read", Net: "mem", Err: net.ErrClosed}
 		}
@@ -245,12 +258,55 @@ func (c *Conn) Write(b []byte) (int, error) {
 	return n, err
 }
 
+func (c *Conn) isClosed() bool {
+	c.cmu.Lock()
+	defer c.cmu.Unlock()
+	return c.closed
+}
+
+// fault consults Net.Fault for a stream operation; an injected error resets the connection.
+func (c *Conn) fault(op string) error {
+	if c.isClosed() {
+		return nil // the ordinary "use of closed network connection" path answers
+	}
+	if e := c.resetErr.Load(); e != nil {
+		return &net.OpError{Op: op, Net: "mem", Err: e.Err}
+	}
+	h := c.n.Fault
+	if h == nil {
+		return nil
+	}
+	err := h("tcp-"+op, c.tag, c.local, c.remote)
+	if err == nil {
+		return nil
+	}
+	oe := &net.OpError{Op: op, Net: "mem", Source: c.local, Addr: c.remote, Err: err}
+	c.resetErr.Store(oe)
+	// both directions are dead: the peer reads EOF / fails to write, blocked operations of this side wake up
+	c.in.mu.Lock()
+	c.in.rclose = true
+	c.in.buf = nil
+	c.in.cond.Broadcast()
+	c.in.mu.Unlock()
+	c.out.mu.Lock()
+	c.out.wclose = true
+	c.out.cond.Broadcast()
+	c.out.mu.Unlock()
+	return oe
+}
+
 func (c *Conn) write(b, data []byte) (int, error) {
+	if err := c.fault("write"); err != nil {
+		return 0, err
+	}
 	p := c.out
 	p.mu.Lock()
 	defer p.mu.Unlock()
 	written := 0
 	for len(data) > 0 {
+		if e := c.resetErr.Load(); e != nil && !c.isClosed() {
+			return written, &net.OpError{Op: "write", Net: "mem", Err: e.Err}
+		}
 		if p.wclose {
 			return written, &net.OpError{Op: "write", Net: "mem", Err: net.ErrClosed}
 		}
@@ -367,6 +423,11 @@ func (n *Net) Listen(network, address string) (net.Listener, error) {
 	if err != nil {
 		return nil, err
 	}
+	if h := n.Fault; h != nil {
+		if err := h("listen", network, &net.TCPAddr{IP: ip, Port: port}, nil); err != nil {
+			return nil, &net.OpError{Op: "listen", Net: "tcp", Err: err}
+		}
+	}
 	n.mu.Lock()
 	defer n.mu.Unlock()
 	if port == 0 {
@@ -442,6 +503,11 @@ func (n *Net) DialFrom(src *net.TCPAddr, address, tag string) (*Conn, error) {
 	if err != nil {
 		return nil, err
 	}
+	if h := n.Fault; h != nil {
+		if err := h("dial", tag, src, &net.TCPAddr{IP: ip, Port: port}); err != nil {
+			return nil, &net.OpError{Op: "dial", Net: "tcp", Err: err}
+		}
+	}
 	n.mu.Lock()
 	l := n.listeners[port]
 	if src == nil {
@@ -511,6 +577,11 @@ func (n *Net) ListenPacket(network, address string) (net.PacketConn, error) {
 	ip, port, err := splitPort(address)
 	if err != nil {
 		return nil, err
+	}
+	if h := n.Fault; h != nil {
+		if err := h("listen-packet", network, &net.UDPAddr{IP: ip, Port: port}, nil); err != nil {
+			return nil, &net.OpError{Op: "listen", Net: "udp", Err: err}
+		}
 	}
 	n.mu.Lock()
 	defer n.mu.Unlock()
@@ -590,6 +661,11 @@ func (pc *PacketConn) WriteTo(b []byte, addr net.Addr) (int, error) {
 	if to.Port <= 0 || to.Port > 65535 {
 		// what the kernel answers (sendto: EINVAL) for a destination port that does not exist
 		return 0, &net.OpError{Op: "write", Net: "udp", Source: pc.addr, Addr: to, Err: os.NewSyscallError("sendto", syscall.EINVAL)}
+	}
+	if h := pc.n.Fault; h != nil {
+		if err := h("udp-write", pc.tag, pc.addr, to); err != nil {
+			return 0, &net.OpError{Op: "write", Net: "udp", Source: pc.addr, Addr: to, Err: os.NewSyscallError("sendto", err)}
+		}
 	}
 	from := &net.UDPAddr{IP: pc.addr.IP, Port: pc.addr.Port}
 	if from.IP == nil || from.IP.IsUnspecified() {
